@@ -116,14 +116,24 @@ class Core:
         return None
 
     def verdicts(self, backs, finals):
-        """backs / finals: [(guards, effect count 0|1|None)].  -> list of problem texts (empty: exactly n effects)"""
+        """backs / finals: [(guards, effect count 0|1|None)].  -> list of problem texts (empty: exactly n effects).
+        With k the number of effects on the way out (0: tested at the top, 1: at the bottom) the loop head sees d >= k remaining
+        passes provided the loop is only reached with n >= k (self.lo, the smallest count that reaches it, may be larger: a
+        redundant `if (n == 0) return` in front of a loop tested at the top); repeating paths must be taken exactly for d >= k + 1
+        and leaving paths exactly for d == k."""
         probs = []
-        if not self.n.free_symbols:
-            # a constant count: a loop tested at the bottom needs no entry guard when the count is at least one
-            ks = set(k for g, k in finals if k is not None)
-            if len(ks) == 1 and int(self.n) >= list(ks)[0]:
-                self.lo = list(ks)[0]
-        lo = self.lo
+        ks = set(k for g, k in finals if k is not None)
+        if len(ks) != 1:
+            if len(ks) > 1:
+                raise Unsupported('ways out of the loop differ in the work they do')
+            return probs
+        k0 = list(ks)[0]
+        reach = self.lo if self.n.free_symbols else int(self.n)
+        if reach < k0:
+            probs.append('the last pass does the work once more although the loop is entered with a count of %d' % reach)
+            return probs
+        self.lo = k0
+        lo = k0
         for g, k in backs:
             if k is None:
                 continue
@@ -135,9 +145,6 @@ class Core:
                 probs.append('with %d pass(es) left the loop %s' % (ce, 'stops' if ce >= lo + 1 else 'goes on'))
         for g, k in finals:
             if k is None:
-                continue
-            if k != lo:
-                probs.append('the last pass %s although the loop is entered with a count >= %d' % ('does the work once more' if k else 'does nothing', lo))
                 continue
             ce = self.taken(g, lambda v: v == lo)
             if ce is not None:
